@@ -387,10 +387,10 @@ def c05(pid, tier, seed):
     fams, fails, samples, stats = [], [], [], {}
     nh = nrec = 0
 
-    def gen(B, D, mode, name):
+    def gen(B, D, mode, name, churn=False, gaps=gaps):
         nonlocal states, trans
         wd = vlib.workdir("%s_gen_%s" % (pid, name))
-        consts = dict(I=4000, B=B, D=D, Gaps=gaps)
+        consts = dict(I=4000, B=B, D=D, Gaps=gaps, Churn=churn)
         if mode == "bfs":
             cfg = vlib.cfg_text(consts, invariants=["TypeOK", "CapOK"], view="ViewImpl")
             out, dist, g = vlib.run_tlc("Limiter", cfg, wd, workers=4)
@@ -405,10 +405,16 @@ def c05(pid, tier, seed):
 
     # design level: the interval form of the laws on the bucket algorithm, exhaustively for a small burst
     wd = vlib.workdir("%s_design" % pid)
-    out, dist, g = vlib.run_tlc("Limiter", vlib.cfg_text(dict(I=4000, B=3, D=14, Gaps=gaps), invariants=["TypeOK", "CapOK", "WindowI", "FreshI"], view="View"), wd, workers=4)
+    out, dist, g = vlib.run_tlc("Limiter", vlib.cfg_text(dict(I=4000, B=3, D=14, Gaps=gaps, Churn=False), invariants=["TypeOK", "CapOK", "WindowI", "FreshI"], view="View"), wd, workers=4)
     states += dist
     trans += g
     design = {"model": "Limiter (I=4000, B=3, depth 14)", "distinct_states": dist, "invariants": ["WindowI", "FreshI", "CapOK"]}
+    # the same with forced draws between the requests (they bypass the bucket and are not counted)
+    wdc = vlib.workdir("%s_design_forced" % pid)
+    outc, distc, gc = vlib.run_tlc("Limiter", vlib.cfg_text(dict(I=4000, B=3, D=10, Gaps={0, 1, 3999, 4000, 4001, 8000}, Churn=True), invariants=["TypeOK", "CapOK", "WindowI", "FreshI"], view="View"), wdc, workers=4)
+    states += distc
+    trans += gc
+    design["with_forced_draws"] = {"model": "Limiter (I=4000, B=3, depth 10, Churn)", "distinct_states": distc}
     # unbounded time, real burst: Apalache discharges the inductive invariant of LimiterInd.tla (same Request as Limiter.tla, I=4000, B=20, any gaps)
     wda = vlib.workdir("%s_apalache" % pid)
     steps = [("Init", "IndInv", 0), ("IndInit", "IndInv", 1), ("IndInit", "WindowI", 0)]
@@ -434,7 +440,7 @@ def c05(pid, tier, seed):
     # every sequence of 5 (6) gaps around the interval, without state-based pruning, so that timing distinctions the
     # reference algorithm does not make (but a changed one might) are kept
     wd2 = vlib.workdir("%s_allseq" % pid)
-    out2, d2, g2 = vlib.run_tlc("Limiter", vlib.cfg_text(dict(I=4000, B=3, D=5 if q else 6, Gaps={0, 1, 3999, 4000, 4001, 8000}), invariants=["TypeOK", "WindowI", "FreshI"]), wd2, workers=4)
+    out2, d2, g2 = vlib.run_tlc("Limiter", vlib.cfg_text(dict(I=4000, B=3, D=5 if q else 6, Gaps={0, 1, 3999, 4000, 4001, 8000}, Churn=False), invariants=["TypeOK", "WindowI", "FreshI"]), wd2, workers=4)
     states += d2
     trans += g2
     small = maximal([h["gaps"] for h in vlib.histories_from(out)] + [h["gaps"] for h in vlib.histories_from(out2)])
@@ -445,6 +451,9 @@ def c05(pid, tier, seed):
     cover10 = gen(10, 30, "bfs", "cover10")
     deep20 = gen(20, 120 if q else 700, ("sim", 24 if q else 200, (120 if q else 700) + 2), "deep20")
     steady = [[2000] * (700 if q else 2000), [4000] * 300, [1] * 400]
+    churn20 = [s for s in gen(20, 48, "bfs", "churn20", churn=True, gaps={0, 1, 3999, 4000, 4001}) if any(g < 0 for g in s)]
+    churn20 = churn20 if not q else churn20[::3]
+    churn20.append([0] * 25 + [-1, 0, 0] * 30)     # a job that keeps creating and dropping short-lived bars while the bucket is empty
 
     def hist(seq, R, kind, lit):
         if kind == "pos":
@@ -465,9 +474,21 @@ def c05(pid, tier, seed):
         else:
             cfg["mp"] = {"target": "spy_hz", "hz": R, "align": "top"}
             ops.append(dict(new, op="add", target="spy"))
+        nb = 1
         for g in seq:
-            ns = g * sub
-            ops.append({"op": "inc" if kind == "pos" else "tick", "b": 1, "n": 1, "dts": ns // 1000000000, "dt": (ns % 1000000000) // 1000, "dtn": ns % 1000})
+            ns = (g if g >= 0 else -g - 1) * sub
+            tm = {"dts": ns // 1000000000, "dt": (ns % 1000000000) // 1000, "dtn": ns % 1000}
+            if g < 0:
+                # forced draws: two short-lived members above the worker, dropped bottom-up; the drop of an unfinished bar finishes it (a forced
+                # draw), the lower one is only flagged and waits at the head of the list, to be released by the next draw
+                short = dict(new, tpl="M", fin="AndClear", len=3, m0=[120], target="spy")
+                ops.append(dict(short, op="insert", b=nb + 1, idx=0, b2=0, **tm))
+                ops.append(dict(short, op="insert", b=nb + 2, idx=1, b2=0))
+                ops.append({"op": "drop", "b": nb + 2, "dt": 0})
+                ops.append({"op": "drop", "b": nb + 1, "dt": 0})
+                nb += 2
+            else:
+                ops.append(dict({"op": "inc" if kind == "pos" else "tick", "b": 1, "n": 1}, **tm))
         return {"cfg": cfg, "ops": ops}
 
     rates = [1, 20, 60, 250, 255] if q else list(range(1, 256))
@@ -477,6 +498,9 @@ def c05(pid, tier, seed):
         plan.append(("single_R%d" % R, [hist(s, R, "single", False) for s in sel + (lifted20 if R == 20 or not q else (lifted20[::2] if R == 250 else lifted20[::4]))] + [hist(s, R, "single", True) for s in sel[::5]]
                      + [hist(s, R, "single", False) for s in (deep20 + steady if (R in (20, 255) or not q) else steady[:1])]))
     plan.append(("multi_R20", [hist(s, 20, "multi", False) for s in cover20[::3] + deep20[:8] + steady[:1]]))
+    # ordinary requests of a long-running member while short-lived members come and go (forced draws in between)
+    plan.append(("multi_churn_R20", [hist(s, 20, "multi", False) for s in churn20]))
+    plan.append(("multi_churn_R1", [hist(s, 1, "multi", False) for s in churn20[::4]]))
     # the limiter of the real console::Term target (TargetKind::Term), driven through a pseudo-terminal
     plan.append(("pty_R20", [hist(s, 20, "pty", False) for s in cover20[::3] + lifted20[::6] + steady[:1]]))
     plan.append(("pty_R255", [hist(s, 255, "pty", False) for s in cover20[::6] + steady[:1]]))
